@@ -550,10 +550,12 @@ def canon_cell(v):
     return ["other", repr(v)]
 
 
-def run_arff(lines, dense, src=False):
+def run_arff(lines, dense, src=False, reader=None):
     from coba.pipes.readers import ArffReader
     try:
-        if src:      # the public wrapper of coba/environments/supervised.py
+        if reader is not None:      # a reader object that has been used before
+            rows = list(reader.filter(list(lines)))
+        elif src:      # the public wrapper of coba/environments/supervised.py
             from coba.environments.supervised import ArffSource
             from coba.pipes import ListSource
             rows = list(ArffSource(ListSource(list(lines))).read())
@@ -574,10 +576,19 @@ def run_arff(lines, dense, src=False):
         return {"err": errname(e), "msg": str(e)[:120]}
 
 
-def run_csv(lines, has_header, delimiter, src=False):
+def run_csv(lines, has_header, delimiter, src=False, reader=None):
     from coba.pipes.readers import CsvReader
     try:
         dialect = {} if delimiter == "," else {"delimiter": delimiter}
+        if reader is not None:
+            rows = list(reader.filter(list(lines)))
+            hdr = None
+            if has_header and rows:
+                hdr = [k for k, _ in sorted(dict(rows[0].headers).items(), key=lambda kv: kv[1])]
+            out = {"header": hdr, "rows": [[x for x in r] for r in rows]}
+            if hdr is not None:
+                out["byname"] = [[r[h] for h in hdr] for r in rows]
+            return {"ok": out}
         if src:
             from coba.environments.supervised import CsvSource
             from coba.pipes import ListSource
@@ -592,10 +603,12 @@ def run_csv(lines, has_header, delimiter, src=False):
         return {"err": errname(e)}
 
 
-def run_svm(lines, manik, src=False):
+def run_svm(lines, manik, src=False, reader=None):
     from coba.pipes.readers import LibsvmReader, ManikReader
     try:
-        if src:
+        if reader is not None:
+            rows = list(reader.filter(list(lines)))
+        elif src:
             from coba.environments.supervised import LibSvmSource, ManikSource
             from coba.pipes import ListSource
             rows = list((ManikSource if manik else LibSvmSource)(ListSource(list(lines))).read())
@@ -1179,8 +1192,50 @@ class C12(Property):
             sp["style"] = sp0["style"]
         return {"kind": "arff", "table": t, "dense": dense, "sp": sp, "via": gen_via(rng) if rng.chance(0.3) else {"mode": "lines"}, "src": rng.chance(0.2)}
 
+    def gen_reuse(self, rng, tier):
+        """ONE reader object applied to several different inputs in sequence (optionally abandoning a read half way)"""
+        fmt = rng.wchoice([(4, "csv"), (4, "arff"), (1, "svm"), (1, "manik")])
+        n = rng.choice([2, 2, 2, 3])
+        inputs = []
+        if fmt == "csv":
+            has_header = rng.chance(0.8)
+            delim = rng.choice([",", ",", "\t", ";"])
+            for _ in range(n):
+                c = self.gen_csv(rng, tier)
+                if has_header and c["header"] is None:
+                    w = len(c["rows"][0]) if c["rows"] else rng.randint(1, 4)
+                    hdr = []
+                    while len(hdr) < w:
+                        h = gen_text(rng, 4, 0.2, allow_empty=False)
+                        if h not in hdr and h.strip() == h:
+                            hdr.append(h)
+                    c["header"] = hdr
+                    c["rows"] = [r[:w] + [""] * (w - len(r)) for r in c["rows"]]
+                if not has_header:
+                    c["header"] = None
+                c["sp"]["delimiter"] = delim
+                c["via"] = {"mode": "lines"}
+                c["src"] = False
+                inputs.append(c)
+        elif fmt == "arff":
+            for _ in range(n):
+                c = self.gen_arff(rng, tier)
+                c["via"] = {"mode": "lines"}
+                c["src"] = False
+                inputs.append(c)
+        else:
+            for _ in range(n):
+                c = self.gen_svm(rng, tier)
+                c["manik"] = fmt == "manik"
+                c["via"] = {"mode": "lines"}
+                c["src"] = False
+                inputs.append(c)
+        abandon = [rng.chance(0.25) for _ in range(n)]
+        abandon[-1] = False
+        return {"kind": "reuse", "fmt": fmt, "inputs": inputs, "abandon": abandon}
+
     def generate(self, rng, tier):
-        k = rng.wchoice([(22, "chunk"), (8, "delim"), (10, "disk"), (16, "csv"), (9, "svm"), (35, "arff")])
+        k = rng.wchoice([(21, "chunk"), (7, "delim"), (10, "disk"), (15, "csv"), (8, "svm"), (33, "arff"), (6, "reuse")])
         return getattr(self, "gen_" + k)(rng, tier)
 
     def search(self, rng, tier):
@@ -1249,6 +1304,17 @@ class C12(Property):
                 for dense in (True, False):
                     cs.append({"kind": "arff", "table": {"cols": t["cols"][:1] + t["cols"][2:3], "rows": [r[:1] + r[2:3] for r in t["rows"]]}, "dense": dense,
                                "sp": {"sseed": 7, "style": "weka", "blanks": True, "comments": True}, "via": kv})
+        cs.append({"kind": "reuse", "fmt": "csv", "abandon": [False, False], "inputs": [
+            {"kind": "csv", "rows": [["1", "ann", "0.5"], ["2", "bob", "0.7"]], "header": ["id", "name", "score"], "sp": dict(base), "via": {"mode": "lines"}},
+            {"kind": "csv", "rows": [["0.1", "7", "Oslo", "eve"], ["0.2", "8", "Rome", "dan"]], "header": ["score", "id", "city", "name"], "sp": dict(base), "via": {"mode": "lines"}}]})
+        cs.append({"kind": "reuse", "fmt": "csv", "abandon": [True, False], "inputs": [
+            {"kind": "csv", "rows": [["1", "2"], ["3", "4"]], "header": ["a", "b"], "sp": dict(base), "via": {"mode": "lines"}},
+            {"kind": "csv", "rows": [["5"]], "header": ["c"], "sp": dict(base), "via": {"mode": "lines"}}]})
+        for d1, d2 in ((True, False), (False, True), (True, True)):
+            cs.append({"kind": "reuse", "fmt": "arff", "abandon": [False, False], "inputs": [
+                {"kind": "arff", "table": t, "dense": d1, "sp": {"sseed": 1, "style": "weka"}, "via": {"mode": "lines"}},
+                {"kind": "arff", "table": {"cols": [{"name": "z", "type": "nominal", "levels": ["p", "q"]}, {"name": "a", "type": "string"}], "rows": [["q", "x"], ["p", "y"]]},
+                 "dense": d2, "sp": {"sseed": 2, "style": "weka", "sep": "\t"}, "via": {"mode": "lines"}}]})
         one = {"cols": [{"name": "a", "type": "numeric"}], "rows": [["1"], [None]]}
         cs.append({"kind": "arff", "table": one, "dense": True, "sp": {"sseed": 1, "style": "weka"}, "via": {"mode": "lines"}})
         return cs
@@ -1504,6 +1570,65 @@ class C12(Property):
             what = "delivery through DiskSink/DiskSource of %r gives %r" % (lines, got)
         return {"fails": [F("B", what, sig)], "nontrivial": True, "tags": tags, "impl": got, "model": None}
 
+    # .................................................................. reuse of one reader object
+    @staticmethod
+    def _sub_lines(sub):
+        if sub["kind"] == "csv":
+            return csv_render(csv_plan(sub["rows"], sub["sp"], sub["header"]), sub["sp"])
+        if sub["kind"] == "svm":
+            return write_svm(sub["rows"], sub["sp"], sub["manik"])
+        return arff_lines(sub)
+
+    def eval_reuse(self, case, driver):
+        """(B) what one reader object reads from input k does not depend on what it read before: it is what a fresh
+        reader reads from the same lines (which the other case kinds compare with the table that was written)"""
+        from coba.pipes.readers import CsvReader, ArffReader, LibsvmReader, ManikReader
+        fmt = case["fmt"]
+        fails, tags = [], ["kind:reuse", "reuse:" + fmt, "reuse:%d-inputs" % len(case["inputs"])]
+        first = case["inputs"][0]
+        if fmt == "csv":
+            d = first["sp"].get("delimiter", ",")
+            hh = first["header"] is not None
+            mk = lambda: CsvReader(has_header=hh, **({} if d == "," else {"delimiter": d}))
+            run = lambda sub, lines, r: run_csv(lines, hh, d, reader=r)
+        elif fmt == "arff":
+            mk = lambda: ArffReader()
+            run = lambda sub, lines, r: run_arff(lines, sub["dense"], reader=r)
+        else:
+            mk = lambda: (ManikReader() if fmt == "manik" else LibsvmReader())
+            run = lambda sub, lines, r: run_svm(lines, fmt == "manik", reader=r)
+        reader = mk()
+        impl_all = []
+        for k, (sub, ab) in enumerate(zip(case["inputs"], case["abandon"])):
+            lines = self._sub_lines(sub)
+            if ab:
+                tags.append("reuse:abandoned-read")
+                try:
+                    it = iter(reader.filter(list(lines)))
+                    row = next(it, None)
+                    if row is not None and fmt in ("csv", "arff"):
+                        try:
+                            list(row) if not hasattr(row, "items") else row.items()
+                        except Exception:
+                            pass
+                    del it
+                except Exception:
+                    pass
+                impl_all.append("abandoned")
+                continue
+            got = run(sub, lines, reader)
+            fresh = run(sub, lines, mk())
+            got.pop("msg", None)
+            fresh.pop("msg", None)
+            impl_all.append(got if "err" in got else "ok")
+            if got != fresh:
+                before = ["input %d%s" % (j, " (abandoned after one row)" if case["abandon"][j] else "") for j in range(k)]
+                fails.append(F("B", "one %s object applied to %d inputs in sequence: from input %d (lines %r) it reads %r, a fresh reader reads %r; read before: %s"
+                               % ({"csv": "CsvReader", "arff": "ArffReader", "svm": "LibsvmReader", "manik": "ManikReader"}[fmt], len(case["inputs"]), k, lines, got, fresh,
+                                  ", ".join(before) or "nothing"),
+                               "reuse:%s:input-%s-differs-from-fresh-reader" % (fmt, "0" if k == 0 else "k")))
+        return {"fails": fails, "nontrivial": len(case["inputs"]) >= 2, "tags": sorted(set(tags)), "impl": impl_all, "model": None}
+
     # .................................................................. svm
     def eval_svm(self, case, driver):
         fails, tags = [], ["kind:" + ("manik" if case["manik"] else "libsvm"), "via:" + case["via"]["mode"]]
@@ -1752,6 +1877,23 @@ class C12(Property):
     # ------------------------------------------------------------------ shrinking / replay
     def shrink(self, case):
         k = case["kind"]
+        if k == "reuse":
+            ins, ab = case["inputs"], case["abandon"]
+            for i in range(len(ins)):
+                if len(ins) > 1:
+                    nab = ab[:i] + ab[i + 1:]
+                    nab[-1] = False
+                    yield dict(case, inputs=ins[:i] + ins[i + 1:], abandon=nab)
+                if ab[i]:
+                    yield dict(case, abandon=ab[:i] + [False] + ab[i + 1:])
+                for sub in self.shrink(ins[i]):
+                    if sub.get("kind") == ins[i]["kind"] and sub.get("via", {"mode": "lines"}).get("mode") == "lines":
+                        if case["fmt"] == "csv" and ((sub["header"] is None) != (ins[0]["header"] is None) or sub["sp"].get("delimiter", ",") != ins[0]["sp"].get("delimiter", ",")):
+                            continue
+                        if case["fmt"] in ("svm", "manik") and sub["manik"] != ins[i]["manik"]:
+                            continue
+                        yield dict(case, inputs=ins[:i] + [sub] + ins[i + 1:])
+            return
         if "via" in case and case["via"].get("mode") != "lines":
             yield dict(case, via={"mode": "lines"})
         if k == "chunk":
@@ -1851,6 +1993,26 @@ class C12(Property):
 
     def snippet(self, case):
         k = case["kind"]
+        if k == "reuse":
+            fmt = case["fmt"]
+            first = case["inputs"][0]
+            if fmt == "csv":
+                d = first["sp"].get("delimiter", ",")
+                ctor = "CsvReader(has_header=%r%s)" % (first["header"] is not None, "" if d == "," else ", delimiter=%r" % d)
+            else:
+                ctor = {"arff": "ArffReader()", "svm": "LibsvmReader()", "manik": "ManikReader()"}[fmt]
+            files = [self._sub_lines(sub) for sub in case["inputs"]]
+            return ("import sys, warnings; warnings.filterwarnings('ignore'); sys.path.insert(0,'/repo')\n"
+                    "from coba.pipes.readers import CsvReader, ArffReader, LibsvmReader, ManikReader\n"
+                    "files = %r\nabandon = %r\n"
+                    "def show(rows):\n    out = []\n    for r in rows:\n"
+                    "        if isinstance(r, tuple): out.append(r)\n"
+                    "        elif hasattr(r, 'items'): out.append(dict(r.items()))\n"
+                    "        else: out.append((list(r), dict(getattr(r, 'headers', None) or {})))\n    return out\n"
+                    "reader = %s\n"
+                    "for f, ab in zip(files, abandon):\n"
+                    "    if ab:\n        next(iter(reader.filter(f)), None); continue\n"
+                    "    print('reused:', show(list(reader.filter(f))))\n    print('fresh :', show(list(%s.filter(f))))\n" % (files, case["abandon"], ctor, ctor))
         repo = "/repo"
         head = "import sys, io, zlib, warnings; warnings.filterwarnings('ignore'); sys.path.insert(0,%r)\n" % repo
         if k == "chunk":
